@@ -182,6 +182,203 @@ pub fn check_def(id: &str, tier: Tier) -> Option<CheckDef> {
         "C04" => CheckDef { id: "C04", worlds: proto_worlds(tier, true, false), oracle: c04 },
         "C05" => CheckDef { id: "C05", worlds: proto_worlds(tier, false, false), oracle: c05 },
         "C17" => CheckDef { id: "C17", worlds: proto_worlds(tier, true, true), oracle: c17 },
+        "C07" => CheckDef { id: "C07", worlds: c07_worlds(tier), oracle: oracles::sem::c07 },
+        "C08" => CheckDef { id: "C08", worlds: fanin_worlds(tier, |n| Op::Merge(n)), oracle: oracles::sem::c08 },
+        "C09" => CheckDef { id: "C09", worlds: fanin_worlds(tier, |n| Op::Concat(n)), oracle: oracles::sem::c09 },
+        "C10" => CheckDef { id: "C10", worlds: fanin_worlds(tier, |n| Op::Combine(n)), oracle: oracles::sem::c10 },
+        "C11" => CheckDef { id: "C11", worlds: c11_worlds(tier), oracle: oracles::sem::c11 },
+        "C12" => CheckDef { id: "C12", worlds: c12_worlds(tier), oracle: oracles::sem::c12 },
+        "C14" => CheckDef { id: "C14", worlds: c14_worlds(tier), oracle: oracles::sem::c14 },
+        "C15" => CheckDef { id: "C15", worlds: c15_worlds(tier), oracle: oracles::sem::c15 },
+        "C16" => CheckDef { id: "C16", worlds: c16_worlds(tier), oracle: oracles::sem::c16 },
         _ => return None,
     })
+}
+
+fn q(tier: Tier) -> bool {
+    tier == Tier::Quick
+}
+
+pub fn c07_worlds(tier: Tier) -> Vec<WorldSpec> {
+    let mut ops = vec![
+        Op::Map,
+        Op::Filter(Pred::Even),
+        Op::Filter(Pred::Odd),
+        Op::Filter(Pred::None),
+        Op::Filter(Pred::All),
+        Op::Filter(Pred::Gt1),
+        Op::Scan(0),
+        Op::Scan(7),
+    ];
+    let maxn = if q(tier) { 3 } else { 4 };
+    for n in 1..=maxn {
+        ops.push(Op::Take(n));
+        ops.push(Op::Skip(n));
+    }
+    let (e, d, budget) = if q(tier) { (6, 3, 3) } else { (8, 4, 4) };
+    ops.into_iter()
+        .map(|op| {
+            let mut s = spec(op, e, d);
+            s.cfg.modes = vec![PMode::Listenable];
+            s.cfg.data_budget = budget;
+            s.name = format!("{} listenable E={} D={}", s.name, e, d);
+            s
+        })
+        .collect()
+}
+
+pub fn fanin_worlds(tier: Tier, mk: impl Fn(usize) -> Op) -> Vec<WorldSpec> {
+    let mut v = vec![];
+    for n in 1..=3usize {
+        let (e, d) = match (n, q(tier)) {
+            (1, true) => (6, 3),
+            (1, false) => (8, 4),
+            (2, true) => (5, 2),
+            (2, false) => (6, 3),
+            (_, true) => (4, 1),
+            (_, false) => (5, 2),
+        };
+        let mut s = spec(mk(n), e, d);
+        s.name = format!("{} E={} D={}", s.name, e, d);
+        v.push(s);
+        if n == 2 && q(tier) {
+            // a deeper reaction bound on a shorter horizon
+            let mut s = spec(mk(n), 3, 3);
+            s.name = format!("{} E=3 D=3", s.name);
+            v.push(s);
+        }
+    }
+    v
+}
+
+pub fn c11_worlds(tier: Tier) -> Vec<WorldSpec> {
+    let mut v = vec![];
+    let bs: Vec<(u32, u32)> = if q(tier) { vec![(5, 2), (4, 3)] } else { vec![(7, 3), (6, 4)] };
+    for (e, d) in bs {
+        let mut s = spec(Op::Flatten, e, d);
+        s.name = format!("{} E={} D={}", s.name, e, d);
+        v.push(s);
+    }
+    v
+}
+
+pub fn c12_worlds(tier: Tier) -> Vec<WorldSpec> {
+    let mut v = vec![];
+    for probes in 1..=3u8 {
+        let (e, d) = match (probes, q(tier)) {
+            (1, true) => (6, 3),
+            (1, false) => (8, 4),
+            (2, true) => (6, 2),
+            (2, false) => (8, 3),
+            (_, true) => (6, 1),
+            (_, false) => (7, 2),
+        };
+        let mut s = spec(Op::Share, e, d);
+        s.cfg.max_probes = probes;
+        s.cfg.no_nested_emit = probes >= 2;
+        s.name = format!("{} x{} E={} D={}", s.name, probes, e, d);
+        v.push(s);
+    }
+    v
+}
+
+pub fn c14_worlds(tier: Tier) -> Vec<WorldSpec> {
+    let mut ops = vec![
+        Op::FromIter(vec![]),
+        Op::FromIter(vec![1, 2]),
+        Op::FromIter(vec![1, 2, 3]),
+        Op::FromIterUnbounded,
+        Op::Map,
+        Op::Filter(Pred::Even),
+        Op::Filter(Pred::Odd),
+        Op::Filter(Pred::None),
+        Op::Scan(0),
+        Op::Take(1),
+        Op::Take(2),
+        Op::Skip(1),
+        Op::Skip(2),
+        Op::Concat(1),
+        Op::Concat(2),
+        Op::Concat(3),
+        Op::Flatten,
+    ];
+    let b = |o: Op| Box::new(o);
+    ops.extend([
+        Op::Comp(b(Op::Take(2)), b(Op::Filter(Pred::Even))),
+        Op::Comp(b(Op::Take(1)), b(Op::Skip(1))),
+        Op::Comp(b(Op::Filter(Pred::Odd)), b(Op::Skip(1))),
+        Op::Comp(b(Op::Skip(1)), b(Op::Filter(Pred::Even))),
+        Op::Comp(b(Op::Map), b(Op::Take(2))),
+        Op::Comp(b(Op::Filter(Pred::Even)), b(Op::Take(2))),
+        Op::Comp(b(Op::Scan(0)), b(Op::Filter(Pred::Odd))),
+        Op::Comp(b(Op::Skip(1)), b(Op::Skip(1))),
+    ]);
+    ops.into_iter()
+        .map(|op| {
+            let (e, d) = match (&op, q(tier)) {
+                (Op::Concat(3), true) | (Op::Flatten, true) => (6, 3),
+                (Op::Concat(3), false) | (Op::Flatten, false) => (8, 4),
+                (_, true) => (7, 4),
+                (_, false) => (9, 5),
+            };
+            let mut s = spec(op, e, d);
+            s.cfg.modes = vec![PMode::Pullable; 4];
+            s.cfg.pull_discipline = true;
+            s.cfg.data_budget = 3;
+            s.name = format!("{} pullable E={} D={}", s.name, e, d);
+            s
+        })
+        .collect()
+}
+
+pub fn c15_worlds(tier: Tier) -> Vec<WorldSpec> {
+    let mut lists: Vec<Vec<i64>> = vec![vec![]];
+    let maxlen = if q(tier) { 3 } else { 4 };
+    let mut frontier: Vec<Vec<i64>> = vec![vec![]];
+    for _ in 0..maxlen {
+        let mut next = vec![];
+        for l in &frontier {
+            for x in 1..=3 {
+                let mut m = l.clone();
+                m.push(x);
+                next.push(m);
+            }
+        }
+        lists.extend(next.iter().cloned());
+        frontier = next;
+    }
+    let (e, d) = if q(tier) { (6, 3) } else { (9, 5) };
+    let mut v: Vec<WorldSpec> = lists
+        .into_iter()
+        .map(|xs| {
+            let mut s = spec(Op::FromIter(xs), e, d);
+            s.name = format!("{} E={} D={}", s.name, e, d);
+            s
+        })
+        .collect();
+    let mut s = spec(Op::FromIterUnbounded, e + 2, d + 1);
+    s.name = format!("{} E={} D={}", s.name, e + 2, d + 1);
+    v.push(s);
+    v
+}
+
+pub fn c16_worlds(tier: Tier) -> Vec<WorldSpec> {
+    let mut v = vec![];
+    for period in [1u64, 7] {
+        for probes in 1..=3u8 {
+            let (e, d) = match (probes, q(tier)) {
+                (1, true) => (7, 3),
+                (1, false) => (10, 4),
+                (2, true) => (6, 2),
+                (2, false) => (8, 3),
+                (_, true) => (6, 1),
+                (_, false) => (8, 2),
+            };
+            let mut s = spec(Op::Interval(period), e, d);
+            s.cfg.max_probes = probes;
+            s.name = format!("{} x{} E={} D={}", s.name, probes, e, d);
+            v.push(s);
+        }
+    }
+    v
 }
